@@ -496,6 +496,14 @@ def configInit (W : World) (P : Params) (slots : Slots) : Outcome Version :=
   else if Facts.initialVerify P.skipInitial P.delay && !W.valid slots then .err "verify"
   else .ok ⟨0, slots⟩
 
+/-- `EnableVerification` when `Config` started no monitor (no watching source): the call verifies
+the installed config itself (dials.go, the `d.monCtl == nil` branch).  Returns the result and the
+Verify calls made. -/
+def enableNoWatch (W : World) (P : Params) (v : Version) : Res × List Obs :=
+  if !P.delay then (.enableOk v, [])
+  else if W.valid v.cfg then (.enableOk v, [.verify v.cfg true true])
+  else (.enableErr, [.verify v.cfg false true])
+
 def run (W : World) : State → List Label → Option State
   | s, [] => some s
   | s, l :: ls => (step W s l).bind (run W · ls)
